@@ -20,7 +20,7 @@ RULE = ("all failure patterns over attempts (F=exception, T=timeout, S=success) 
         "trivial = N=0 with success")
 ASSUMPTIONS = ["Redis and RabbitMQ are wire-level fakes", "virtual time", "cron recurrence not exercised (croniter absent)"]
 EVAL_COUNTER = "chains_judged"
-REQUIRED = ["chains_judged", "retries_timed", "final_dead", "final_gone", "final_rescheduled", "forced_over_budget", "timezone_offset_runs", "waiting_retries_inspected_and_returned", "looks_before_a_months_long_backoff_is_over"]
+REQUIRED = ["chains_judged", "retries_timed", "final_dead", "final_gone", "final_rescheduled", "forced_over_budget", "timezone_offset_runs", "waiting_retries_inspected_and_returned", "looks_before_a_months_long_backoff_is_over", "twin_chains_judged"]
 CASE_TIMEOUT = 150
 
 POLICIES = ("default", "default_rand", "zero", "linear", "lambda")
@@ -91,6 +91,10 @@ def gen_cases(tier, seed):
     for kind in kinds:
         for days in ((60,) if tier == "quick" else (50, 60, 400)):
             cases.append({"type": "months", "kind": kind, "days": days, "seed": rnd.randrange(10**6), "latency": None if kind == "mem" else 0.003, "policy": "months", "rec": False, "N": 2, "mode": "months", "patterns": []})
+    # two jobs that share actor name and id and differ in priority only, failing at overlapping times: each has its own retries
+    for kind in kinds:
+        for dA, dB in (((0.3, 0.6), (0.6, 0.3)) if tier == "quick" else ((0.3, 0.6), (0.6, 0.3), (0.05, 0.9), (0.4, 0.45))):
+            cases.append({"type": "twins_retry", "kind": kind, "dA": dA, "dB": dB, "seed": rnd.randrange(10**6), "latency": None if kind == "mem" else 0.002, "policy": "linear", "rec": False, "N": 2, "mode": "twins_retry", "patterns": []})
     if tier == "thorough":
         extra = []
         for c in cases:
@@ -126,6 +130,48 @@ def make_policy(name, rnd):
 
 
 PERIOD = 25.0
+
+
+async def twins_retry_scenario(loop, case, out, stats, fps):
+    from repid import PrioritiesT
+    from rv.wl import World, run_worker
+
+    kind = case["kind"]
+    w = World(loop, kind, converter="basic", seed=case["seed"], latency=case["latency"])
+    try:
+        await w.open()
+        r = w.router(retry_policy=lambda retry_number=1: timedelta(seconds=0.7 * retry_number))
+        w.scripted_actor(r, "act")
+        await w.conn.message_broker.queue_declare("default")
+        twins = {"A": (PrioritiesT.HIGH, case["dA"]), "B": (PrioritiesT.LOW, case["dB"])}
+        for lab, (prio, d) in twins.items():
+            # fails twice (after d seconds), then succeeds: three executions, attempts 0, 1, 2
+            script = {"by_attempt": [{"do": "raise", "exc": "ValueError", "d": d}, {"do": "raise", "exc": "KeyError", "d": d}, {"do": "ok", "d": 0.01}], "label": lab}
+            await w.job("act", "same", script, priority=prio, retries=2, timeout=timedelta(seconds=5), store_result=False, args_id=f"args-{lab}", result_id=f"res-{lab}").enqueue()
+
+        def acks():
+            return [e for e in w.log.events if e.get("id") == "same" and e["k"] == "ret" and e.get("op") == "ack" and e.get("depth") == 0]
+
+        info = await run_worker(w, w.worker([r], tasks_limit=10, graceful_shutdown_time=3.0, handle_signals=[__import__("signal").SIGUSR1]), until=lambda: len(acks()) >= 2, horizon=25.0, poll=0.25)
+        if info["exc"] is not None or not info["returned"]:
+            out.append(V("worker_died", kind, "twins_retry", f"{info}"))
+        await asyncio.sleep(0.3)
+        places = w.rig.snapshot(detail=True).get("same", [])
+        fps.add(f"{kind}/twins_retry/{case['dA']}/{case['dB']}")
+        for lab, (prio, d) in twins.items():
+            stats["chains_judged"] += 1
+            stats["twin_chains_judged"] += 1
+            runs = [e for e in w.events("actor_start") if e.get("label") == lab]
+            tried = [e.get("attempt") for e in runs]
+            if tried != [0, 1, 2]:
+                mine = [pl for pl, _q, pr in places if pr == prio.value]
+                out.append(V("attempt_count", kind, "twins_retry", f"twin {lab} (priority {prio.value}; same actor name and id as its twin, failures after {d}s): executions with attempt counters {tried}, expected [0, 1, 2]; "
+                                                                   f"its message is at {mine or 'no queue'} after 25 s"))
+        if places:
+            out.append(V("wrong_final_place", kind, "twins_retry", f"both twins succeeded at their third attempt, yet {places} is left"))
+        stats["unknown_server_commands"] += w.rig.unknown_commands()
+    finally:
+        await w.close()
 
 
 async def months_scenario(loop, case, out, stats, fps):
@@ -190,6 +236,8 @@ async def scenario(loop, case, out, stats, fps, samples):
 
     if case.get("type") == "months":
         return await months_scenario(loop, case, out, stats, fps)
+    if case.get("type") == "twins_retry":
+        return await twins_retry_scenario(loop, case, out, stats, fps)
     kind = case["kind"]
     rnd = random.Random(case["seed"])
     lat = case.get("latency", None if kind == "mem" else 0.001)
